@@ -66,7 +66,12 @@ impl RefPeer {
     }
 
     pub async fn send_raw(&mut self, b: impl Into<Bytes>) -> Result<(), String> {
-        self.sink.send(b.into()).await.map_err(|e| e.to_string())
+        // Bounded in virtual time: a link whose other end is gone or never reads must not park
+        // the (paused) runtime for ever.
+        match tokio::time::timeout(Duration::from_secs(600), self.sink.send(b.into())).await {
+            Ok(r) => r.map_err(|e| e.to_string()),
+            Err(_) => Err("peer send timed out (600 virtual s)".into()),
+        }
     }
 
     pub async fn send(&mut self, m: &RefMsg) -> Result<(), String> {
